@@ -518,6 +518,7 @@ func prefixOffsets(saved []byte, seed int) []int {
 func TestC11(t *testing.T) {
 	installEnterprise()
 	col := getCollector("C11", c11Rule)
+	defer os.RemoveAll(c11WorkDir())
 	runRegress(t, "C11")
 	envs := map[string]*wire.GenEnv{"ipfix": wire.NewGenEnv("ipfix"), "nf9": wire.NewGenEnv("nf9")}
 	rapid.Check(t, func(t *rapid.T) {
